@@ -110,6 +110,7 @@ func main() {
 		r.Configs = append(r.Configs, c.String())
 		r.Stat("packages_loaded", p.npkgs)
 		r.Stat("repo_functions", len(p.Funcs))
+		r.Stat("functions_with_function_literal_blocks_normalised", p.normalised)
 		d.run(r, p)
 	}
 	if *tier == "thorough" && os.Getenv("VLCHECK_NO_SELFTEST") == "" {
